@@ -137,7 +137,7 @@ BUDGET = {"quick": 120.0, "thorough": 600.0}
 
 
 def plan(tier, seed):
-    P = 1 if tier == "quick" else 2
+    P = 1 if tier == "quick" else 3
     items = []
     for op in ("or", "and"):
         items.append(dict(scenario="fold", params=dict(op=op, n=3, split=[0]), bounds=dict(P=P)))
